@@ -53,6 +53,68 @@ def run_property(prop, tier, seed, repo=None, overrides=None, quiet=False):
     return ctx, meta, t0
 
 
+def _one_control(args):
+    prop, module, text, seed = args
+    ctx, _, _ = run_property(prop, 'quick', seed, overrides={module: text})
+    return [(f.rule, f.construct, f.stmt, (f.witness or '')[:160]) for f in ctx.findings], [e['error'][:160] for e in ctx.errors]
+
+
+def run_controls(ctx, prop, seed):
+    """thorough tier: every sensitivity control of this property, applied to the tree being checked"""
+    from hsverify import controls
+    from multiprocessing import Pool
+    m = ctx.model
+    base_keys = {(f.rule, f.construct, f.stmt) for f in ctx.findings}
+    base_err = len(ctx.errors)
+    jobs, metas = [], []
+    for cprop, module, old, new, expect, rule, name in controls.M:
+        if cprop != prop:
+            continue
+        label = name or (old.strip().split('\n')[0][:50] + ' -> ' + new.strip().split('\n')[0][:40])
+        try:
+            text = m.mod(module).text
+        except model.AnalysisError:
+            ctx.controls.append({'control': label, 'applicable': False, 'why': 'module missing'})
+            continue
+        if old not in text:
+            ctx.controls.append({'control': label, 'applicable': False, 'why': 'pattern not in this tree'})
+            continue
+        jobs.append((prop, module, text.replace(old, new, 1), seed))
+        metas.append((label, expect, rule))
+    if not jobs:
+        return
+    try:
+        with Pool(min(16, len(jobs))) as pool:
+            results = pool.map(_one_control, jobs)
+    except Exception as e:  # pragma: no cover
+        ctx.error('controls', 'control pool failed: %s' % e)
+        return
+    fired = 0
+    for (label, expect, rule), (finds, errs) in zip(metas, results):
+        new = [f for f in finds if (f[0], f[1], f[2]) not in base_keys]
+        if rule:
+            new_r = [f for f in new if f[0] == rule]
+        else:
+            new_r = new
+        if expect == 'V':
+            ok = bool(new_r)
+        else:
+            ok = not new and len(errs) <= base_err
+        ctx.controls.append({'control': label, 'applicable': True, 'expect': 'violation' if expect == 'V' else 'silent',
+                             'as_expected': ok, 'reported': ['%s: %s' % (f[0], f[3]) for f in new[:2]],
+                             'errors': errs[:1]})
+        if ok:
+            fired += 1
+        elif expect == 'V':
+            ctx.error('controls', 'sensitivity control %r did not make the check fire (%s): the checker lost '
+                                  'sensitivity' % (label, ('analysis error: ' + errs[0]) if errs else 'silent'))
+        else:
+            ctx.error('controls', 'behaviour-preserving control %r made the check report %s' % (
+                label, new[0][0] if new else errs[:1]))
+    ctx.count('sensitivity controls as expected', fired)
+    ctx.count('sensitivity controls applicable', len(jobs))
+
+
 def main(argv):
     if len(argv) >= 2 and argv[0] == '--replay':
         with open(argv[1], encoding='utf-8') as f:
@@ -86,6 +148,11 @@ def main(argv):
             print('unknown property %s' % prop)
             return 2
         ctx, meta, t0 = run_property(prop, tier, seed)
+        if tier == 'thorough' and ctx.model is not None:
+            try:
+                run_controls(ctx, prop, seed)
+            except Exception as e:  # pragma: no cover
+                ctx.error('controls', '%s: %s' % (type(e).__name__, e))
         cmd = '/venv/bin/python check.py %s --tier %s' % (prop, tier)
         rc = findings.finish(ctx, t0, meta['level'], meta['explanation'], meta['rule_text'],
                              COMMON_TRUST + meta.get('trusted_base', []), cmd)
